@@ -616,7 +616,9 @@ impl Connection {
             _ => 0,
         };
         let token = match self.state {
-            State::Unconnected => unreachable!(),
+            // Nothing has been negotiated yet (e.g. `disconnect` on a fresh
+            // connection, as `Net::reject` does): send without a token.
+            State::Unconnected => None,
             // Signal support for the token protocol.
             State::Connecting => Some(TOKEN_NONE),
             State::Pending(ref pending) => pending.token,
